@@ -126,3 +126,168 @@ AUTH_PARAMS = Contract(
     frame=["Params.p_has", "Params.p_val"], props=["C19"],
     assumes=["extracted block: the authentication branch of VMTunnel.__init__ (auth given as a dictionary; auth=None sets key type NONE)"],
 )
+
+
+# ---------------------------------------------------------------- the network / peer parameters of the two end points mirror each other
+# VMNode.interfaces / .params / .name, VMInterface.netconfig / .ip and VMNetconfig.net_ip / .netmask are properties whose
+# getters / setters read and write one private attribute each: modelled as plain fields (own class names, so that the C18
+# schema of VMNetconfig is not touched).
+from pyvc.kinds import NULL                                                        # noqa: E402
+
+_schema.SCHEMA["TunnelNet"] = {"fields": {"net_ip": STR, "netmask": STR}}
+_schema.SCHEMA["TunnelIface"] = {"fields": {"netconfig": Ref("TunnelNet"), "ip": STR}, "nonnull": ["netconfig"]}
+_schema.SCHEMA["VMNode"]["fields"].update({"interfaces": Map(STR, Ref("TunnelIface")), "params": Ref("Params")})
+_schema.SCHEMA["VMNode"].setdefault("nonnull", [])
+_schema.SCHEMA["VMNode"]["nonnull"] = sorted(set(_schema.SCHEMA["VMNode"]["nonnull"]) | {"params"})
+
+
+def new_netconfig(eng, st, args, kw, node):
+    """VMNetconfig(): a new netconfig object, different from every object reachable before"""
+    r = fresh(Ref("TunnelNet"), "new_netconfig")
+    st.assume(r.term != NULL)
+    n = st.ghost.get("netconfig.created") or V(INT, z3.Const("netconfig.created0", z3.IntSort()))
+    st.ghost["netconfig.created"] = V(INT, n.term + 1)
+    yield st, r
+
+
+def init_stmts(fn, first, last):
+    """top-level statements of __init__ from the one whose source starts with `first` to the one starting with `last`"""
+    texts = [ast.unparse(s) for s in fn.body]
+    a = [i for i, t in enumerate(texts) if t.startswith(first)]
+    b = [i for i, t in enumerate(texts) if t.startswith(last)]
+    if len(a) < 1 or len(b) < 1 or a[0] > b[-1]:
+        return []
+    return fn.body[a[0]:b[-1] + 1]
+
+
+def if_on(test_prefix):
+    def select(fn):
+        found = [s for s in fn.body if isinstance(s, ast.If) and ast.unparse(s.test).startswith(test_prefix)]
+        return found if len(found) == 1 else []
+    return select
+
+
+def P(kind, node):
+    return f"params['vpnconn_{kind}_' + name + '_' + {node}.name]"
+
+
+def HAS(kind, node):
+    return f"('vpnconn_{kind}_' + name + '_' + {node}.name) in params"
+
+
+DISTINCT_ENDS = ["node1.name != node2.name",
+                 "not (name + '_' + node1.name).endswith('_' + node2.name) and not (name + '_' + node2.name).endswith('_' + node1.name)"]
+TYPED = "'type' in local1 and 'type' in remote1 and 'type' in peer1"
+NODE_WF = ["node1 != node2", "node1.params != node2.params", "params != node1.params and params != node2.params"]
+LAN1 = "node1.interfaces[node1.params[local1.get('nic', 'lan_nic')]].netconfig"
+LAN2 = "node2.interfaces[node2.params[remote1.get('nic', 'lan_nic')]].netconfig"
+
+def WHEN(cond, body):
+    """implication whose consequence is only evaluated when the condition holds (it dereferences optional objects)"""
+    return f"(({body}) if ({cond}) else True)"
+
+
+LOCAL_NET = Contract(
+    target=f"{TUNNEL}::VMTunnel.__init__", name="VMTunnel.__init__#local_net", block=("local_net", if_on("local1['type'] == 'nic'")),
+    params={"local1": Map(STR, STR), "params": Ref("Params"), "name": STR, "node1": Ref("VMNode"), "node2": Ref("VMNode")},
+    requires=["'type' in local1"] + DISTINCT_ENDS + NODE_WF,
+    outputs={"netconfig1": Ref("TunnelNet")},
+    overrides={"VMNetconfig": new_netconfig},
+    extra_names={"VMNetconfig": VFunc("handler", fn=new_netconfig, name="VMNetconfig")},
+    # unsupported types are rejected
+    raises={"ValueError": "local1['type'] not in ['nic', 'internetip', 'custom']", "KeyError": None, "ParamNotFound": None,
+            "AttributeError": None},
+    ensures=[
+        # each side's local network is the other side's remote network
+        ("left_lan_is_the_right_sides_remote_net",
+         WHEN("local1['type'] == 'nic'", f"netconfig1 == {LAN1} and {P('lan_net', 'node1')} == {LAN1}.net_ip and "
+              f"{P('remote_net', 'node2')} == {LAN1}.net_ip and {P('lan_netmask', 'node1')} == {LAN1}.netmask and "
+              f"{P('remote_netmask', 'node2')} == {LAN1}.netmask")),
+        ("point_has_no_lan", "implies(local1['type'] == 'internetip', netconfig1 is None)"),
+        ("custom_lan_as_given", WHEN("local1['type'] == 'custom'",
+                                     f"netconfig1 is not None and forall(Ref('TunnelNet'), lambda n: implies(n == netconfig1, "
+                                     f"n.net_ip == local1['lnet'] and n.netmask == local1['lmask'])) and "
+                                     f"{P('lan_net', 'node1')} == local1['lnet'] and "
+                                     f"{P('lan_netmask', 'node1')} == local1['lmask']")),
+        ("existing_netconfigs_untouched", f"forall(Ref('TunnelNet'), lambda n: implies(n != netconfig1 or local1['type'] != 'custom', "
+                                          "n.net_ip == old(n.net_ip) and n.netmask == old(n.netmask)))"),
+    ],
+    frame=["Params.p_has", "Params.p_val", "TunnelNet.net_ip", "TunnelNet.netmask"], props=["C19"],
+    assumes=["extracted block: the left local type branch of VMTunnel.__init__",
+             "the properties of VMNode / VMInterface / VMNetconfig read and write one private attribute each (modelled as fields); "
+             "VMNetconfig() returns a new object"],
+)
+
+REMOTE_NET = Contract(
+    target=f"{TUNNEL}::VMTunnel.__init__", name="VMTunnel.__init__#remote_net", block=("remote_net", if_on("remote1['type'] == 'custom'")),
+    params={"local1": Map(STR, STR), "remote1": Map(STR, STR), "params": Ref("Params"), "name": STR,
+            "node1": Ref("VMNode"), "node2": Ref("VMNode")},
+    requires=["'type' in local1 and 'type' in remote1"] + DISTINCT_ENDS + NODE_WF,
+    outputs={"netconfig2": Ref("TunnelNet")},
+    overrides={"VMNetconfig": new_netconfig},
+    extra_names={"VMNetconfig": VFunc("handler", fn=new_netconfig, name="VMNetconfig")},
+    raises={"ValueError": "remote1['type'] not in ['custom', 'externalip', 'modeconfig']", "KeyError": None, "ParamNotFound": None,
+            "AttributeError": None},
+    ensures=[
+        ("right_lan_is_the_left_sides_remote_net",
+         WHEN("remote1['type'] == 'custom'", f"netconfig2 is not None and forall(Ref('TunnelNet'), lambda n: implies(n == netconfig2, "
+              f"{P('lan_net', 'node2')} == n.net_ip and {P('remote_net', 'node1')} == n.net_ip and "
+              f"{P('lan_netmask', 'node2')} == n.netmask and {P('remote_netmask', 'node1')} == n.netmask))")),
+        ("right_lan_of_an_existing_net", WHEN("remote1['type'] == 'custom' and local1['type'] != 'custom'", f"netconfig2 == {LAN2}")),
+        ("right_lan_of_a_forwarded_net", WHEN("remote1['type'] == 'custom' and local1['type'] == 'custom'",
+                                              "forall(Ref('TunnelNet'), lambda n: implies(n == netconfig2, n.net_ip == local1['rnet'] and n.netmask == local1['rmask']))")),
+        ("point_has_no_lan", "implies(remote1['type'] != 'custom', netconfig2 is None)"),
+        ("modeconfig_address_passed_on", WHEN("remote1['type'] == 'modeconfig'", f"{P('remote_modeconfig_ip', 'node1')} == remote1['modeconfig_ip']")),
+    ],
+    frame=["Params.p_has", "Params.p_val", "TunnelNet.net_ip", "TunnelNet.netmask"], props=["C19"],
+    assumes=["extracted block: the left remote type branch of VMTunnel.__init__", "properties modelled as fields (see #local_net)"],
+)
+
+
+def peer_block(fn):
+    return init_stmts(fn, "params['vpnconn_peer_type_%s_%s' % (name, node1.name)]", "params['vpnconn_activation_%s_%s' % (name, node2.name)]")
+
+
+IFACE2 = "node2.interfaces[node2.params[peer1.get('nic', 'internet_nic')]]"
+IFACE1 = "node1.interfaces[node1.params[peer2.get('nic', 'internet_nic')]]"
+PEER_PARAMS = Contract(
+    target=f"{TUNNEL}::VMTunnel.__init__", name="VMTunnel.__init__#peer_params", block=("peer_params", peer_block),
+    params={"peer1": Map(STR, STR), "peer2": Map(STR, STR), "params": Ref("Params"), "name": STR,
+            "node1": Ref("VMNode"), "node2": Ref("VMNode")},
+    requires=["'type' in peer1 and 'type' in peer2"] + DISTINCT_ENDS + NODE_WF,
+    outputs={"interface1": Ref("TunnelIface"), "interface2": Ref("TunnelIface")},
+    raises={"ValueError": "peer1['type'] not in ['ip', 'dynip']", "KeyError": None, "ParamNotFound": None, "AttributeError": None},
+    ensures=[
+        # peer addresses point at each other
+        ("end_point_interfaces", f"interface2 == {IFACE2} and interface1 == {IFACE1}"),
+        ("right_peer_is_the_left_end_point", f"{P('peer_ip', 'node2')} == interface1.ip and {P('activation', 'node2')} == 'ALWAYS'"),
+        ("left_peer_is_the_right_end_point", WHEN("peer1['type'] == 'ip'", f"{P('peer_ip', 'node1')} == interface2.ip and "
+                                                  f"{P('activation', 'node1')} == 'ALWAYS'")),
+        ("road_warrior_is_waited_for", WHEN("peer1['type'] == 'dynip'", f"{P('activation', 'node1')} == 'PASSIVE' and "
+                                            f"({HAS('peer_ip', 'node1')}) == old({HAS('peer_ip', 'node1')})")),
+        ("peer_types_recorded", f"{P('peer_type', 'node1')} == peer1['type'].upper() and {P('peer_type', 'node2')} == peer2['type'].upper()"),
+    ],
+    frame=["Params.p_has", "Params.p_val"], props=["C19"],
+    assumes=["extracted block: the road warrior (peer) statements of VMTunnel.__init__", "properties modelled as fields (see #local_net)"],
+)
+
+
+def side_block(fn):
+    return init_stmts(fn, "params['vpnconn_%s_%s' % (name, node1.name)]", "params['vpnconn_remote_type_%s_%s' % (name, node2.name)]")
+
+
+SIDE_PARAMS = Contract(
+    target=f"{TUNNEL}::VMTunnel.__init__", name="VMTunnel.__init__#side_params", block=("side_params", side_block),
+    params={"local1": Map(STR, STR), "remote1": Map(STR, STR), "local2": Map(STR, STR), "remote2": Map(STR, STR),
+            "params": Ref("Params"), "name": STR, "node1": Ref("VMNode"), "node2": Ref("VMNode")},
+    requires=["'type' in local1 and 'type' in remote1 and 'type' in local2 and 'type' in remote2"] + DISTINCT_ENDS + NODE_WF,
+    raises={},
+    ensures=[
+        ("left_and_right", f"params['vpn_side_' + name + '_' + node1.name] == 'left' and params['vpn_side_' + name + '_' + node2.name] == 'right'"),
+        # the right hand side gets the derived (mirrored) configuration, the left one what was given
+        ("types_per_side", f"{P('lan_type', 'node1')} == local1['type'].upper() and {P('lan_type', 'node2')} == local2['type'].upper() and "
+                           f"{P('remote_type', 'node1')} == remote1['type'].upper() and {P('remote_type', 'node2')} == remote2['type'].upper()"),
+    ],
+    frame=["Params.p_has", "Params.p_val"], props=["C19"],
+    assumes=["extracted block: the main parameter statements of VMTunnel.__init__"],
+)
